@@ -2,6 +2,8 @@
 import math
 import warnings
 
+import numpy as np
+
 from hypothesis import strategies as st
 
 from .. import repo, strategies as S
@@ -223,7 +225,18 @@ def check_chain(case):
     ellname, prj = case["ell"], case["prj"]
     lat, lon = case["lat"], case["lon"]
     la0, lo0 = _from_dec(case["notation"], lat), _from_dec(case["notation"], lon)
-    start = co.CoordGeo(la0, lo0, case["h_ell"], case["h_orth"])
+    hk = case.get("hnum", "float")
+
+    def _h(v):
+        # the same height as the caller may hold it: a Python int or a numpy scalar where those hold the value exactly
+        if v is None or hk == "float":
+            return v
+        if hk == "np64":
+            return np.float64(v)
+        if float(v).is_integer():
+            return int(v) if hk == "int" else np.int64(int(v))
+        return v
+    start = co.CoordGeo(la0, lo0, _h(case["h_ell"]), _h(case["h_orth"]))
     if (start.ell_ht, start.orth_ht) != (case["h_ell"], case["h_orth"]) or not (_same_angle(start.lat, la0) and _same_angle(start.lon, lo0)):
         raise Fail("CoordGeo does not hold the latitude, longitude and heights it was given",
                    expected=(repr(la0), repr(lo0), case["h_ell"], case["h_orth"]),
@@ -317,7 +330,7 @@ interleaved_cases = st.lists(_iop, min_size=3, max_size=8).map(lambda ops: {"ops
 
 # ------------------------------------------------------------------------------------------------ generators
 
-h_s = st.one_of(st.none(), st.just(0.0), S.floats(-100.0, 9000.0), st.sampled_from([10.0, -0.0977, 603.2]))
+h_s = st.one_of(st.none(), st.just(0.0), S.floats(-100.0, 9000.0), st.sampled_from([10.0, -0.0977, 603.2]), st.integers(-100, 9000).map(float))
 step_s = st.one_of(st.sampled_from(["cart", "tm", "tm", "cart"]),
                    st.sampled_from(NOTATIONS).map(lambda n: "geo:" + n), st.sampled_from(NOTATIONS).map(lambda n: "notation:" + n))
 
@@ -338,7 +351,8 @@ def chains(draw):
     start = draw(st.sampled_from(["geo", "geo", "cart", "tm"]))
     h_ell, h_orth, nval = draw(h_s), draw(h_s), draw(h_s)
     return {"lat": lat, "lon": lon, "ell": ell, "prj": prj, "start": start, "notation": draw(st.sampled_from(NOTATIONS)),
-            "h_ell": h_ell, "h_orth": h_orth, "nval": nval, "chain": draw(st.lists(step_s, min_size=2, max_size=8)),
+            "h_ell": h_ell, "h_orth": h_orth, "nval": nval, "hnum": draw(st.sampled_from(["float", "float", "int", "npint", "np64"])),
+            "chain": draw(st.lists(step_s, min_size=2, max_size=8)),
             "form": draw(st.sampled_from(["positional", "positional", "keyword", "defaults"]))}
 
 
